@@ -28,6 +28,8 @@ func init() {
 			"bytes: all byte strings of length <= 2 and length 3 over a 40-byte alphabet; tokens: all strings of <= 4 (thorough 5) tokens over a 22-token alphabet; each through Run, Compile+Run, Eval, Object, Call(nil) and Call(this); non-trivial = the text got past the parser. " +
 			"recursion: stack depth limit L in {1..16,100,1000,10000} x depth d in {0..L+2, unbounded} x 24 call / re-entry forms (direct and indirect eval of self-evaluating code, Function-constructor bodies, valueOf / toString / toJSON / getter / setter re-entry, forEach / map / reduce / sort / replace callbacks, ...) + 2 forms that recurse inside JSON.stringify; non-trivial = the limit was hit. " +
 			"goapi-value: 107 Value/Object accessor variants x 46 value kinds; goapi-otto: Value.Call and Otto.Get/Set/Call/Eval/Context/ToValue/MakeError/Copy around every arity-0 surface call. " +
+			"entry: 27 entry routes (Run, Eval, Compile, Otto.Call, Value.Call and Object.Call at rest, native callback at rest, host re-entry, getters / setters / toString / toJSON run by Go-side Get / Set / Export / String / MarshalJSON, Copy) x 48 callee bodies touching frame- and scope-dependent machinery (caller, arguments.callee, this, Error().stack, direct / indirect eval, Function, with, try/finally, labels, recursion to the limit, Otto.Context from a host function). " +
+			"scope-mutation: 18 binding kinds (eval-declared local / global, with property, catch parameter, global property, undeclared, ...) x 30 Reference-consuming forms x 16 sub-expressions that delete / redeclare / shadow the binding between resolution and use, through Run, Eval and Compile+Run twice. " +
 			"Every case runs in a child process of the worker; a dead child (fatal error, watchdog) is a mismatch of the announced case and the shard continues after it.",
 		Families: []engine.Family{
 			{Name: "surface-a01", Run: supervised(runSurfaceClass("a01"))},
@@ -36,6 +38,8 @@ func init() {
 			{Name: "bridge", Run: supervised(runBridge)},
 			{Name: "history", Run: supervised(runHistory)},
 			{Name: "structured", Run: supervised(runStructured)},
+			{Name: "entry", Run: supervised(runEntry)},
+			{Name: "scope-mutation", Run: supervised(runScopeMutation)},
 			{Name: "bytes", Run: supervised(runBytes)},
 			{Name: "tokens", Run: supervised(runTokens)},
 			{Name: "recursion", Run: supervised(runRecursion)},
